@@ -4,6 +4,7 @@ import (
 	"encoding/json"
 	"fmt"
 	"os"
+	"strings"
 	"testing"
 	"time"
 
@@ -77,6 +78,38 @@ func govcWithin(d time.Duration, fn func()) bool {
 	case <-time.After(d):
 		return false
 	}
+}
+
+// govcPanicMatches decides whether an observed panic is the failure the
+// obligation speaks about: safety obligations are matched by their class, a
+// panic never counts as the replay of a functional postcondition.
+func govcPanicMatches(p *govcParams, pv interface{}) bool {
+	if p.Kind != "safety" {
+		return false
+	}
+	msg := fmt.Sprint(pv)
+	has := func(sub string) bool { return strings.Contains(msg, sub) }
+	switch {
+	case strings.HasPrefix(p.Label, "nil-deref"), strings.HasPrefix(p.Label, "nil-iface"), strings.HasPrefix(p.Label, "nil-func"):
+		return has("nil pointer dereference")
+	case strings.HasPrefix(p.Label, "nil-map"):
+		return has("nil map")
+	case strings.HasPrefix(p.Label, "slice-bounds"):
+		return has("slice bounds out of range")
+	case strings.HasPrefix(p.Label, "index"):
+		return has("index out of range")
+	case strings.HasPrefix(p.Label, "div-zero"):
+		return has("divide by zero")
+	case strings.HasPrefix(p.Label, "make-len"):
+		return has("makeslice")
+	case strings.HasPrefix(p.Label, "type-assert"):
+		return has("interface conversion")
+	case strings.HasPrefix(p.Label, "panic"):
+		return true
+	case strings.HasPrefix(p.Label, "cast-bounds"):
+		return has("out of range") || has("nil pointer") || has("fault")
+	}
+	return false
 }
 
 var govcScenarios = map[string]func(t *testing.T, p *govcParams) govcOutcome{}
@@ -184,7 +217,10 @@ func govcTxMethod(t *testing.T, p *govcParams) govcOutcome {
 		return govcOutcome{reproduced: true, detail: state + " did not return within 5s"}
 	}
 	if panicked {
-		return govcOutcome{reproduced: true, detail: fmt.Sprintf("%s panicked: %v", state, pv)}
+		if govcPanicMatches(p, pv) {
+			return govcOutcome{reproduced: true, detail: fmt.Sprintf("%s panicked: %v", state, pv)}
+		}
+		return govcOutcome{detail: fmt.Sprintf("%s panicked (%v), but that is not what this obligation is about", state, pv)}
 	}
 	switch p.Kind {
 	case "ensures":
@@ -208,4 +244,172 @@ func govcTxMethod(t *testing.T, p *govcParams) govcOutcome {
 		}
 	}
 	return govcOutcome{detail: fmt.Sprintf("%s returned err=%v without panic", state, callErr)}
+}
+
+// ---------------------------------------------------------------------------
+// scenario iofault: fail the k-th call of one vfs operation during a fixed
+// workload (open, grow past the mapped area, shrink, reopen); args[0] = op.
+// Reproduced if any k makes the workload panic or hang, or (for labelled
+// postconditions) leaves the File in the state the obligation forbids.
+// ---------------------------------------------------------------------------
+
+func init() { govcScenarios["iofault"] = govcIOFault }
+
+func govcIOFault(t *testing.T, p *govcParams) govcOutcome {
+	op := "MMap"
+	if len(p.Args) > 0 {
+		op = p.Args[0]
+	}
+	for k := 1; k <= 12; k++ {
+		var f *File
+		var mf *govcMemFile
+		var detail string
+		bad := false
+		work := func() {
+			mf = newGovcMemFile(8 << 20)
+			mf.failAt[op] = k
+			var err error
+			if op == "Truncate" {
+				// a preallocated 2 MiB file reopened with a 1 MiB limit: the next commit truncates
+				mf.failAt[op] = 0
+				f0, err0 := openWith(mf, Options{MaxSize: 2 << 20, PageSize: 1024, Prealloc: true})
+				if err0 != nil {
+					return
+				}
+				f0.Close()
+				mf.calls[op] = 0
+				mf.failAt[op] = k
+				f, err = openWith(mf, Options{MaxSize: 1 << 20, Flags: FlagUpdMaxSize})
+			} else {
+				f, err = openWith(mf, Options{MaxSize: 1 << 20, PageSize: 1024})
+			}
+			if err != nil {
+				f = nil
+				return
+			}
+			// grow: allocate more pages than the initial file holds, then free them again
+			var ids []PageID
+			for round := 0; round < 3 && f != nil; round++ {
+				tx, err := f.Begin()
+				if err != nil {
+					return
+				}
+				pages, err := tx.AllocN(100)
+				if err == nil {
+					for _, pg := range pages {
+						pg.SetBytes(make([]byte, 1024))
+						ids = append(ids, pg.ID())
+					}
+				}
+				cerr := tx.Commit()
+				tx.Close()
+				if cerr != nil {
+					if p.Label == "mapping-survives-errors" && f.mapped == nil {
+						bad = true
+						detail = fmt.Sprintf("after failing %s#%d: Commit returned %q and left File.mapped == nil (meta[0]=%p still set)", op, k, cerr.Error(), f.meta[0])
+					}
+				}
+			}
+			tx, err := f.Begin()
+			if err != nil {
+				return
+			}
+			for _, id := range ids {
+				if pg, err := tx.Page(id); err == nil {
+					pg.Free()
+				}
+			}
+			cerr := tx.Commit()
+			tx.Close()
+			if cerr != nil && p.Label == "mapping-survives-errors" && f.mapped == nil {
+				bad = true
+				detail = fmt.Sprintf("after failing %s#%d: Commit returned %q and left File.mapped == nil", op, k, cerr.Error())
+			}
+			// one more transaction reading a page: must not crash
+			if rtx, err := f.BeginReadonly(); err == nil {
+				if pg, err := rtx.Page(2); err == nil {
+					pg.Bytes()
+				}
+				rtx.Close()
+			}
+		}
+		var panicked bool
+		var pv interface{}
+		returned := govcWithin(10*time.Second, func() { panicked, pv = govcRecover(work) })
+		if !returned {
+			if p.Kind == "safety" || strings.Contains(p.Label, "lock") {
+				return govcOutcome{reproduced: true, detail: fmt.Sprintf("workload hung with %s#%d failing", op, k)}
+			}
+			continue
+		}
+		if panicked {
+			if govcPanicMatches(p, pv) {
+				return govcOutcome{reproduced: true, detail: fmt.Sprintf("workload panicked with %s#%d failing: %v (calls: %v)", op, k, pv, mf.calls)}
+			}
+			continue
+		}
+		if bad {
+			return govcOutcome{reproduced: true, detail: detail}
+		}
+		if f != nil {
+			govcWithin(5*time.Second, func() { govcRecover(func() { f.Close() }) })
+		}
+	}
+	return govcOutcome{detail: "no failing index of " + op + " (1..12) made the workload panic, hang or break the checked state"}
+}
+
+// ---------------------------------------------------------------------------
+// scenario resize: reopen an existing file with FlagUpdMaxSize and a different
+// maximum size, then use it.
+// ---------------------------------------------------------------------------
+
+func init() { govcScenarios["resize"] = govcResize }
+
+func govcResize(t *testing.T, p *govcParams) govcOutcome {
+	for _, newMax := range []uint64{2 << 20, 512 << 10, 0} {
+		mf := newGovcMemFile(8 << 20)
+		f, err := openWith(mf, Options{MaxSize: 1 << 20, PageSize: 4096})
+		if err != nil {
+			return govcOutcome{skip: "create failed: " + err.Error()}
+		}
+		tx, _ := f.Begin()
+		pg, _ := tx.Alloc()
+		pg.SetBytes([]byte("govc"))
+		tx.SetRoot(pg.ID())
+		if err := tx.Commit(); err != nil {
+			return govcOutcome{skip: "setup commit failed: " + err.Error()}
+		}
+		f.Close()
+		opts := Options{MaxSize: newMax, Flags: FlagUpdMaxSize}
+		if newMax == 0 {
+			opts.Flags |= FlagUnboundMaxSize
+		}
+		var f2 *File
+		var oerr error
+		returned := govcWithin(10*time.Second, func() { f2, oerr = openWith(mf, opts) })
+		if !returned {
+			return govcOutcome{reproduced: true, detail: fmt.Sprintf("openWith(FlagUpdMaxSize, MaxSize=%d) did not return", newMax)}
+		}
+		if oerr != nil {
+			continue
+		}
+		state := fmt.Sprintf("after openWith(FlagUpdMaxSize, MaxSize=%d): pendingSet=%v sharedCount=%d", newMax, f2.locks.pendingSet, f2.locks.sharedCount)
+		if f2.locks.pendingSet {
+			blocked := !govcWithin(2*time.Second, func() {
+				if rtx, err := f2.BeginReadonly(); err == nil {
+					rtx.Close()
+				}
+			})
+			return govcOutcome{reproduced: true, detail: fmt.Sprintf("%s; BeginReadonly blocked=%v", state, blocked)}
+		}
+		ok := govcWithin(2*time.Second, func() {
+			if rtx, err := f2.BeginReadonly(); err == nil {
+				rtx.Close()
+			}
+		})
+		if !ok {
+			return govcOutcome{reproduced: true, detail: state + "; BeginReadonly blocked"}
+		}
+	}
+	return govcOutcome{detail: "grow, shrink and unbound all left the lock idle and readers could begin"}
 }
